@@ -38,7 +38,8 @@ Inductive label :=
 | DelSR                     (* the head frame S->R is processed by R's task *)
 | Read (n : N)
 | AbortR                    (* R drops the stream *)
-| DelRS.                    (* the head Acknowledge R->S is processed by S's task *)
+| DelRS                     (* the head Acknowledge R->S is processed by S's task *)
+| KillS.                    (* S's task closes the flow on a Reset from the peer: nothing is sent *)
 
 Inductive out := ONone | OPending | OWritten (n : N) | OBroken | OData (d : list N) | OEof.
 
@@ -129,6 +130,9 @@ Definition step (s : st) (l : label) : st * out :=
                 (ralive s) (buf s) (u s) r (sgone s) (overrun s) (written s) (readout s)
                 (nsent s) (if sgone s then nret s else nret s + n) (npop s) (nack s), ONone)
       end
+  | KillS =>
+      (mkSt (W s) (th s) (c s) true (wsr s) (rxq s) (txopen s) (ralive s)
+            (buf s) (u s) (wrs s) true (overrun s) (written s) (readout s) (nsent s) (nret s) (npop s) (nack s), ONone)
   end.
 
 Fixpoint run (s : st) (ls : list label) : st :=
